@@ -1,7 +1,7 @@
 (* Properties_C08.v -- C08: vi operators, inserts, puts and registers.
    Statements only; every proof is `exact <lemma>`; Print Assumptions under each. *)
 From Coq Require Import List NArith ZArith Bool.
-From NV Require Import Bytes UcDefs UcSpec MotDefs MotProps RegDefs RegProps ViDefs ViProps.
+From NV Require Import Bytes UcDefs UcSpec MotDefs MotProps RegDefs RegProps ViDefs ViProps ViExecProps.
 Import ListNotations.
 Local Open Scope N_scope.
 
@@ -54,6 +54,23 @@ Theorem C08_region_same_row : forall b k r o1 o2 l, buf_wf b -> getl b r = Some 
 Proof. exact vc_region_same_row. Qed.
 Print Assumptions C08_region_same_row.
 
+(* C08_region (full): for every state and every operator command whose motion succeeds (op_target is the
+   motion part of vc_motion: any count pair, any motion key of the C07 model or the doubled operator), the
+   region handed to the operator (vc_region, the value exec_op passes on) satisfies region_spec of ViDefs.v:
+   line-wise (target offset -1) = the whole lines min..max of cursor row and target row; character-wise
+   = from the earlier of cursor / target to the later one, exclusive, one character further for
+   f F t T e E % unless the later end is at the end of its line; and (r1, o1) <= (r2, o2) *)
+Theorem C08_region : forall b rows s a1 a2 t k r2 o2 cl cc pc, buf_wf b -> 0 <= v_off s ->
+  let o1 := ren_noeol (getl b (v_row s)) (v_off s) in
+  op_target b rows s a1 a2 t o1 = TOk k r2 o2 cl cc pc ->
+  (0 <= o2 \/ o2 = -1) /\ region_spec b k (v_row s) o1 r2 o2 (vc_region b k (v_row s) o1 r2 o2).
+Proof. exact exec_region. Qed.
+Print Assumptions C08_region.
+(* the same rule for arbitrary positions (not only those a motion can produce) *)
+Theorem C08_region_rule : forall b k r1 o1 r2 o2, buf_wf b -> 0 <= o1 -> region_spec b k r1 o1 r2 o2 (vc_region b k r1 o1 r2 o2).
+Proof. exact vc_region_spec. Qed.
+Print Assumptions C08_region_rule.
+
 (* ---------- C08_delete_yank_put ---------- *)
 (* character-wise inside one line: the register holds exactly the region's text, the line becomes
    before ++ after, and putting that text back before offset o1 restores the buffer *)
@@ -79,9 +96,58 @@ Theorem C08_delete_yank_put_lines : forall b R y r1 r2, 0 <= r1 <= r2 -> r2 < bl
 Proof. exact delete_put_lines. Qed.
 Print Assumptions C08_delete_yank_put_lines.
 
-(* PARTIAL: the multi-line character-wise region (dw joining two lines), p as opposed to P, counts on
-   puts, and "u restores" (C04) are not covered by the two theorems above; they are explored by the
-   correspondence run only. *)
+(* C08_delete_yank_put at the level of the interpreter [exec_op] / [exec_put], for all buffers, states,
+   counts, motions and plain register names.
+   yank: the buffer is unchanged and the register holds exactly the region's text with its line-wise flag *)
+Theorem C08_yank_exec : forall rows e y a1 a2 t k r2 o2 cl cc pc e1, plain_reg y ->
+  let b := s_buf e in let s := s_vs e in
+  let o1 := ren_noeol (getl b (v_row s)) (v_off s) in
+  op_target b rows s a1 a2 t o1 = TOk k r2 o2 cl cc pc ->
+  let g := vc_region b k (v_row s) o1 r2 o2 in
+  exec_op rows e y a1 Oy a2 t [] = Some e1 ->
+  s_buf e1 = b /\ reg_get (s_regs e1) y = Some (flat (region_text b g), g_ln g).
+Proof. exact yank_spec. Qed.
+Print Assumptions C08_yank_exec.
+(* line-wise delete (dd, dj, dG, ...): the register holds the lines' text, the lines are removed; when a line
+   is left below them the cursor is on the row of the first deleted line and P of that register restores
+   the buffer (through the bytes of the register: chop after flat) *)
+Theorem C08_delete_put_lines_exec : forall rows e y a1 a2 t k r2 o2 cl cc pc e1, plain_reg y ->
+  let b := s_buf e in let s := s_vs e in
+  let o1 := ren_noeol (getl b (v_row s)) (v_off s) in
+  buf_wf b -> buf_valid b ->
+  op_target b rows s a1 a2 t o1 = TOk k r2 o2 cl cc pc ->
+  let g := vc_region b k (v_row s) o1 r2 o2 in
+  g_ln g = true -> 0 <= g_r1 g -> g_r2 g < blen b ->
+  exec_op rows e y a1 Od a2 t [] = Some e1 ->
+  reg_get (s_regs e1) y = Some (flat (concat (rows_between b (g_r1 g) (g_r2 g + 1))), true) /\
+  s_buf e1 = firstn (Z.to_nat (g_r1 g)) b ++ skipn (Z.to_nat (g_r2 g + 1)) b /\
+  (g_r2 g + 1 < blen b -> v_row (s_vs e1) = g_r1 g /\ s_buf (exec_put rows e1 y 0 false) = b).
+Proof. exact delete_lines_spec. Qed.
+Print Assumptions C08_delete_put_lines_exec.
+(* character-wise delete over any number of lines (x, dw, d}, db across a line end, ...): the register holds
+   exactly lbuf_region, the rows r1..r2 become the single line before ++ after, the cursor row is r1;
+   when the cursor can stay at the start of the region (off_ok: not clamped by the end of the new line)
+   and the region is not empty, P of that register restores the buffer.  The hypothesis
+   g_o2 <= slen l2 - 1 excludes only a target past the terminator (d^ on a blank-only line, where
+   lbuf_indents counts the newline as a blank) *)
+Theorem C08_delete_put_chars_exec : forall rows e y a1 a2 t k r2 o2 cl cc pc e1 l1 l2, plain_reg y ->
+  let b := s_buf e in let s := s_vs e in
+  let o1 := ren_noeol (getl b (v_row s)) (v_off s) in
+  buf_wf b -> buf_valid b -> 0 <= v_off s ->
+  op_target b rows s a1 a2 t o1 = TOk k r2 o2 cl cc pc ->
+  let g := vc_region b k (v_row s) o1 r2 o2 in
+  g_ln g = false -> getl b (g_r1 g) = Some l1 -> getl b (g_r2 g) = Some l2 -> g_o2 g <= slen l2 - 1 ->
+  exec_op rows e y a1 Od a2 t [] = Some e1 ->
+  let nl := sub_l l1 0 (g_o1 g) ++ sub_l l2 (g_o2 g) (-1) in
+  let txt := lbuf_region b (g_r1 g) (g_o1 g) (g_r2 g) (g_o2 g) in
+  reg_get (s_regs e1) y = Some (flat txt, false) /\
+  s_buf e1 = firstn (Z.to_nat (g_r1 g)) b ++ [nl] ++ skipn (Z.to_nat (g_r2 g + 1)) b /\
+  v_row (s_vs e1) = g_r1 g /\
+  (off_ok nl (g_o1 g) -> flat txt <> [] -> v_off (s_vs e1) = g_o1 g /\ s_buf (exec_put rows e1 y 0 false) = b).
+Proof. exact delete_chars_spec. Qed.
+Print Assumptions C08_delete_put_chars_exec.
+(* not covered by a theorem: p (put after) and counts on puts as a round trip, upper-case (appending)
+   registers in the round trip, "u restores" (C04) *)
 
 (* ---------- C08_utf8 (PARTIAL: delete, yank and put only) ---------- *)
 (* on the character view every edit moves whole characters: delete and put keep every line a list of
